@@ -1081,8 +1081,15 @@ class Facts:
         self.new_fns = set()
         try:
             with open(os.path.join(os.path.dirname(os.path.abspath(__file__)), 'rules', 'known_fns.json')) as fh:
-                known = set(json.load(fh))
+                known = json.load(fh)
+            if isinstance(known, list):
+                known = dict((k, None) for k in known)
             self.new_fns = set(n for n in self.fns if n not in known and '{closure' not in n and '::tests::' not in n and not n.startswith('<'))
+            self.renamed = {}
+            try:
+                self._pair_renames(known)
+            except Exception:
+                pass
         except Exception:
             pass
         self._helper_cache = {}
@@ -1090,6 +1097,63 @@ class Facts:
             self._inline_new_helpers()
         except Exception:  # an aid to precision only; without it the look-through in calls_to / expand_atoms remains
             pass
+
+    def _pair_renames(self, known):
+        """A function of the reviewed tree that is gone, and exactly one new function of the same type / module with the same
+        number of arguments and the same return type: a rename.  The new function is analysed under the old name (the
+        name the rules and tables were written against); its callers' call sites and its closures are renamed with it.
+        Only functions that exist in every build configuration of the reviewed tree are considered gone."""
+        here = set(self.fns)
+        gone = [n for n, sig in known.items() if sig is not None and n not in here and not n.startswith('<') and '::tests::' not in n
+                and (len(sig) < 3 or not self.config or self.config in sig[2])]
+        if not gone or not self.new_fns:
+            return
+        by_owner_new = {}
+        for n in self.new_fns:
+            f = self.fns[n]
+            by_owner_new.setdefault((n.rpartition('::')[0], f.argc, f.ret), []).append(n)
+        by_owner_gone = {}
+        for n in gone:
+            argc, ret = known[n][0], known[n][1]
+            by_owner_gone.setdefault((n.rpartition('::')[0], argc, ret), []).append(n)
+        pairs = {}
+        for key, olds in by_owner_gone.items():
+            news = by_owner_new.get(key, [])
+            if len(olds) == 1 and len(news) == 1:
+                pairs[news[0]] = olds[0]
+        if not pairs:
+            return
+        # cfg-dependent functions (absent from this configuration in the reviewed tree too) must not be paired: a function is
+        # "gone" only if some function of this configuration was known -- guaranteed, since every name in `here` that is
+        # known exists; the remaining risk (a cfg-gated function paired with an unrelated new one) needs an equal signature
+        # in the same impl block
+        for new, old in pairs.items():
+            f = self.fns.pop(new)
+            f.name = old
+            self.fns[old] = f
+            self.new_fns.discard(new)
+            self.renamed[new] = old
+            for cn in [c for c in list(self.fns) if c.startswith(new + '::{closure')]:
+                g = self.fns.pop(cn)
+                g.name = old + cn[len(new):]
+                if g.parent == new:
+                    g.parent = old
+                self.fns[g.name] = g
+        for f in self.fns.values():
+            if f.parent in pairs:
+                f.parent = pairs[f.parent]
+            for b in f.blocks:
+                t = b['t']
+                if t['k'] == 'call':
+                    for key in ('fn', 'ofn'):
+                        v = t.get(key)
+                        if v in pairs:
+                            t[key] = pairs[v]
+                        elif isinstance(v, str):
+                            for new, old in pairs.items():
+                                if v.startswith(new + '::{closure'):
+                                    t[key] = old + v[len(new):]
+                    t['cls'] = [pairs.get(c, next((old + c[len(new):] for new, old in pairs.items() if c.startswith(new + '::{closure')), c)) for c in t.get('cls', [])]
 
     def _inline_new_helpers(self, rounds=3):
         """MIR-level inlining of *new helpers* (functions absent from the reviewed tree) into their callers, so that a few
